@@ -29,7 +29,10 @@ THEOREMS = ['C14_squeeze_closed_form', 'C14_content_layout',
             'C14_cards_grouping', 'C14_cards_layout',
             'C14_case_invariant_options', 'C14_case_invariant_splits',
             'C14_split_surface', 'C14_split_surface_tr',
-            'C14_split_surface_rendered', 'C14_split_data_rendered']
+            'C14_split_surface_rendered', 'C14_split_data_rendered',
+            'C14_blocks_layout', 'C14_blocks_layout_message',
+            'C14_split_cell_void', 'C14_split_cell_material',
+            'C14_front_layout']
 TRUSTED = [
     'hand-written model coq/C14/Model.v (modelled, tied by execution only); '
     'regexes re-implemented as scanners: tied exhaustively on short strings '
